@@ -371,6 +371,12 @@ func c19Judge(w *fw.W, c *c19Case, o *c19Obs) bool {
 	w.Count("formats:"+c.Format, 1)
 	w.Cover("formats", c.Format)
 	w.Cover("sinks", c.Sink)
+	if exp.NoPattern {
+		w.Count(fmt.Sprintf("nopattern_relevant_%v", exp.Relevant), 1)
+		if o.Follow {
+			w.Count("nopattern_followups", 1)
+		}
+	}
 	if exp.Denies > 1 {
 		w.Count("multi_deny_"+exp.StatusSource, 1)
 	}
@@ -718,6 +724,48 @@ func c19MultiCell(cell, rep int, seed int64) *c19Case {
 	return c
 }
 
+// nopattern table: SecAuditEngine RelevantOnly WITHOUT SecAuditLogRelevantStatus: a record iff at least one rule fired
+// in this transaction has auditing enabled. Rule lists of 1..3 rules over the four flag lists (4+16+64) x four phase
+// layouts (all phase 2; ascending ending in phase 5; descending from phase 5, so file order is the reverse of
+// evaluation order; all phase 5) x rule engine. Every cell is followed by a transaction on the same WAF that fires
+// only a nolog rule (expected: no record).
+var c19NoPatFlags = []string{"log,auditlog", "nolog,auditlog", "nolog", "log,noauditlog"}
+
+func c19NoPatDims() []int {
+	return []int{4 + 16 + 64, 4, 2}
+}
+
+func c19NoPatCell(cell, rep int, seed int64) *c19Case {
+	ix := c19Decode(cell, c19NoPatDims())
+	c := &c19Case{Table: "nopattern", Cell: cell, AuditEngine: "RelevantOnly", Relevant: ""}
+	c.RuleEngine = []string{"On", "DetectionOnly"}[ix[2]]
+	c.DefFlags = c19DefFlagCombos[c19Rot(len(c19DefFlagCombos), cell, rep, seed, 2)]
+	c.Parts = c19PartsConfigs[c19Rot(len(c19PartsConfigs), cell, rep, seed, 3)]
+	c.Format = c19Formats[(cell+rep+int(seed))%len(c19Formats)]
+	c.Sink = c19SinkFor(cell/4, rep, seed)
+	c.RespStatus = []int{200, 503, 403, 404}[c19Rot(4, cell, rep, seed, 4)]
+	k, n := ix[0], 1
+	switch {
+	case k >= 20:
+		k, n = k-20, 3
+	case k >= 4:
+		k, n = k-4, 2
+	}
+	layouts := [][]int{{2, 2, 2}, {1, 3, 5}, {5, 3, 1}, {5, 5, 5}}
+	lay := layouts[ix[1]]
+	if ix[1] == 1 {
+		lay = lay[3-n:] // ascending, always ending in phase 5
+	}
+	for i := 0; i < n; i++ {
+		c.Rules = append(c.Rules, c19Rule{ID: 61 + i, Phase: lay[i], Flags: c19NoPatFlags[k%4], First: true, Plain: i == 1})
+		k /= 4
+	}
+	// fires in both transactions, never audit-enabled
+	c.Rules = append(c.Rules, c19Rule{ID: 50, Phase: 1 + c19Rot(5, cell, rep, seed, 5), Flags: "nolog", NoMsg: true})
+	c.Rules = append(c.Rules, c19Rule{ID: 30, Phase: 2, Flags: "log,auditlog", Never: true})
+	return c
+}
+
 // content table: audit engine On; flags of two fired rules x default list x parts x format (ctl on parts rotates).
 func c19ContentDims() []int {
 	return []int{len(c19FlagCombos), len(c19FlagCombos), len(c19DefFlagCombos) + 1, len(c19PartsConfigs), len(c19Formats)}
@@ -821,6 +869,7 @@ func c19Plan(tier fw.Tier, seed int64) []fw.Batch {
 	split("parts", c19Product(c19PartsDims()), 2)
 	split("late", c19Product(c19LateDims()), 2)
 	split("multi", c19Product(c19MultiDims()), 2)
+	split("nopattern", c19Product(c19NoPatDims()), 1)
 	return bs
 }
 
@@ -847,6 +896,8 @@ func c19Run(w *fw.W, b fw.Batch) {
 				c = c19LateCell(cell, rep, w.Seed)
 			case "multi":
 				c = c19MultiCell(cell, rep, w.Seed)
+			case "nopattern":
+				c = c19NoPatCell(cell, rep, w.Seed)
 			default:
 				c = c19PartsCell(cell, rep, w.Seed)
 			}
@@ -875,7 +926,7 @@ func c19Run(w *fw.W, b fw.Batch) {
 // late tables, and for a rotating quarter of the decision / content cells in which a ctl rule exists.
 func c19WantFollow(c *c19Case, cell, rep int, seed int64) bool {
 	switch c.Table {
-	case "parts", "late":
+	case "parts", "late", "nopattern":
 		return true
 	case "multi":
 		return c.RuleEngine != c.ruleEngine() // switched by ctl: the follow-up runs the same rules with the engine On
@@ -917,15 +968,15 @@ func init() {
 	plugins.RegisterAuditLogWriter("verifc19", func() plugintypes.AuditLogWriter { return &c19PlugWriter{} })
 	fw.Register(&fw.Prop{
 		ID: "C19", Level: "exploration",
-		Rule: "six tables enumerated completely (exhaustive=true refers to them): DECISION = rule engine {On,DetectionOnly} x SecAuditEngine {On,Off,RelevantOnly} x ctl:auditEngine {none, On/Off/RelevantOnly in a rule of phase 1..4} x status source {response 200/404/403/503; deny with status 403/404 in phase 1..4 (real interruption under On, would-be under DetectionOnly) with response 200/503} x log flags of the deciding rule (9 lists of log/nolog/auditlog/noauditlog incl. none) x format {JSON,JsonLegacy,Native,OCSF}; CONTENT (engine On) = flags of two fired rules (9x9) x SecDefaultAction log flags (none + 4) x SecAuditLogParts (14 incl. none) x format (4); PARTS (engine On) = SecAuditLogParts (14) x ctl:auditLogParts (11 incl. none, +X, -X, absolute) x format (4) x 3 flag lists, the phase (1..5) of the ctl rule rotating; LATE = ctl:auditEngine {On,Off,RelevantOnly} executed by a rule of the logging phase (phase 5, evaluated before the audit decision) x rule engine (2) x SecAuditEngine (3) x status source (20) x format (4), the flags of the deciding rule rotating. MULTI (SecAuditEngine RelevantOnly) = rule engine {DetectionOnly configured, On switched to DetectionOnly by ctl:ruleEngine in the first phase-1 rule, On} x every list of two or three deny rules with a phase 1..4 and a status 403/404 each (64 + 512 lists: same and different phases, file order against evaluation order, statuses on either side of the pattern) x response status {200,503}; format and pattern rotate. The status that counts is the one of the FIRST evaluated disruptive rule (real under On, would-be under DetectionOnly); the ctl-switched cells are followed by a transaction without the switch (real interruption) on the same WAF. Every ctl rule tests a request header, and for every cell of PARTS and LATE and a rotating quarter of the DECISION/CONTENT cells with a ctl rule a second transaction WITHOUT that header follows on the SAME WAF; its record, callbacks and parts are judged by the same decision function for the configured (not ctl-modified) engine and parts (violation classes prefixed followup:). Covering (not product) dimensions rotate with cell index, repetition and seed: relevant-status pattern, sink (plugin writer / serial file / concurrent directory+index, the files parsed), extra rules, hostile header/argument/body/message bytes. Every execution is a connector-style transaction finished by one ProcessLogging; the number of records, well-formedness, transaction id, listed rule ids and error-callback invocations are compared with a decision function written from the statement. Concurrent part (race build, sampled): G goroutines finishing transactions through ONE serial writer or ONE concurrent writer; in every second round each goroutine creates its last transaction, then the WAF is closed (experimental.WAFCloser / io.Closer) while half of those transactions finish concurrently with Close and the other half strictly after it - all of them must still be recorded exactly once; files parsed afterwards, record ids compared with finished ids as multisets, index entries checked for interleaving. A case is non-trivial when at least one rule fired and every judgement was made without violation; distinct by hash of the whole case (configuration, rules, bytes, sink).",
+		Rule: "seven tables enumerated completely (exhaustive=true refers to them): DECISION = rule engine {On,DetectionOnly} x SecAuditEngine {On,Off,RelevantOnly} x ctl:auditEngine {none, On/Off/RelevantOnly in a rule of phase 1..4} x status source {response 200/404/403/503; deny with status 403/404 in phase 1..4 (real interruption under On, would-be under DetectionOnly) with response 200/503} x log flags of the deciding rule (9 lists of log/nolog/auditlog/noauditlog incl. none) x format {JSON,JsonLegacy,Native,OCSF}; CONTENT (engine On) = flags of two fired rules (9x9) x SecDefaultAction log flags (none + 4) x SecAuditLogParts (14 incl. none) x format (4); PARTS (engine On) = SecAuditLogParts (14) x ctl:auditLogParts (11 incl. none, +X, -X, absolute) x format (4) x 3 flag lists, the phase (1..5) of the ctl rule rotating; LATE = ctl:auditEngine {On,Off,RelevantOnly} executed by a rule of the logging phase (phase 5, evaluated before the audit decision) x rule engine (2) x SecAuditEngine (3) x status source (20) x format (4), the flags of the deciding rule rotating. MULTI (SecAuditEngine RelevantOnly) = rule engine {DetectionOnly configured, On switched to DetectionOnly by ctl:ruleEngine in the first phase-1 rule, On} x every list of two or three deny rules with a phase 1..4 and a status 403/404 each (64 + 512 lists: same and different phases, file order against evaluation order, statuses on either side of the pattern) x response status {200,503}; format and pattern rotate. The status that counts is the one of the FIRST evaluated disruptive rule (real under On, would-be under DetectionOnly); the ctl-switched cells are followed by a transaction without the switch (real interruption) on the same WAF. NOPATTERN = SecAuditEngine RelevantOnly WITHOUT SecAuditLogRelevantStatus (record iff at least one rule fired in THIS transaction has auditing enabled): every list of 1..3 rules over the flag lists {log,auditlog | nolog,auditlog | nolog | log,noauditlog} (4+16+64) x phase layout {all phase 2; ascending ending in phase 5; descending from phase 5 (file order against evaluation order); all phase 5} x rule engine (2); every cell is followed on the same WAF by a transaction that fires only a nolog rule (no record expected). Every ctl rule tests a request header, and for every cell of PARTS and LATE and a rotating quarter of the DECISION/CONTENT cells with a ctl rule a second transaction WITHOUT that header follows on the SAME WAF; its record, callbacks and parts are judged by the same decision function for the configured (not ctl-modified) engine and parts (violation classes prefixed followup:). Covering (not product) dimensions rotate with cell index, repetition and seed: relevant-status pattern, sink (plugin writer / serial file / concurrent directory+index, the files parsed), extra rules, hostile header/argument/body/message bytes. Every execution is a connector-style transaction finished by one ProcessLogging; the number of records, well-formedness, transaction id, listed rule ids and error-callback invocations are compared with a decision function written from the statement. Concurrent part (race build, sampled): G goroutines finishing transactions through ONE serial writer or ONE concurrent writer; in every second round each goroutine creates its last transaction, then the WAF is closed (experimental.WAFCloser / io.Closer) while half of those transactions finish concurrently with Close and the other half strictly after it - all of them must still be recorded exactly once; files parsed afterwards, record ids compared with finished ids as multisets, index entries checked for interleaving. A case is non-trivial when at least one rule fired and every judgement was made without violation; distinct by hash of the whole case (configuration, rules, bytes, sink).",
 		Assumptions: []string{
 			"fired rules are taken from Transaction.MatchedRules(); which rules fire is C01/C02/C08 territory. A cross-check against the generator's own expectation skips (and counts) executions that differ",
 			"log flags are judged from the generated flag lists (log: both, nolog: neither, auditlog/noauditlog: audit bit only, applied left to right after the SecDefaultAction list of the phase), never from MatchedRule.Audit()/Log()",
-			"RelevantOnly always has a SecAuditLogRelevantStatus; DetectionOnly cases in which the would-be status is not relevant but the real response status is are skipped as ambiguous",
+			"RelevantOnly has a SecAuditLogRelevantStatus in every table but NOPATTERN, where relevance is read as the code and the SecAuditEngine documentation evidently intend it without a pattern: some rule fired in this transaction asked for audit logging; DetectionOnly cases in which the would-be status is not relevant but the real response status is are skipped as ambiguous",
 			"field names are used only to locate the transaction id and rule ids (JSON: transaction.id, messages[].data.id / error_message; JsonLegacy: transaction.transaction_id, audit_data.messages[] text prefix; OCSF: http_request.uid, enrichments[].data; Native: section A line, K raw rules, H [id \"N\"]); timestamps, ordering and other fields are not judged",
 			"a clean race-detector run covers only the schedules that occurred",
 		},
-		Required:   []string{"multi_deny_detectiononly", "multi_deny_interruption", "close_inflight_transactions", "ctl_fired_in_phase5", "followup_transactions", "table_cells", "records_expected", "records_seen", "records_parsed", "callbacks", "records_with_rules_judged", "concurrent_records", "concurrent_files_parsed", "formats"},
+		Required:   []string{"nopattern_relevant_true", "nopattern_relevant_false", "nopattern_followups", "multi_deny_detectiononly", "multi_deny_interruption", "close_inflight_transactions", "ctl_fired_in_phase5", "followup_transactions", "table_cells", "records_expected", "records_seen", "records_parsed", "callbacks", "records_with_rules_judged", "concurrent_records", "concurrent_files_parsed", "formats"},
 		Exhaustive: true,
 		Plan:       c19Plan,
 		Run:        c19Run,
